@@ -6,10 +6,11 @@ cd "$(dirname "$0")/.." || exit 2
 tier=${1:-quick}
 out=seeded/RESULTS.txt
 echo "# seeded changes and mutants vs checks (tier=$tier), $(date -u +%Y-%m-%dT%H:%MZ), /repo $(git -C /repo log --format=%h -1)" > $out
-for d in seeded/C*/; do
-  n=$(basename $d)
-  python3 tools/seedcheck.py $d $n --tier $tier 2>&1 | tail -1 | cut -c1-260 >> $out
-done
+# seeds in parallel (scratch worktrees are per seed), results in directory order
+tmp=$(mktemp -d /tmp/selftest.XXXXXX)
+ls -d seeded/C??-?/ | xargs -P ${SELFTEST_JOBS:-5} -I{} sh -c 'n=$(basename {}); python3 tools/seedcheck.py {} $n --tier '$tier' 2>&1 | tail -1 | cut -c1-260 > '$tmp'/$n.txt'
+cat $tmp/*.txt >> $out
+rm -rf $tmp
 for p in mutants/*.patch; do
   n=$(basename $p .patch)
   props=$(python3 -c "import json;print(','.join(json.load(open('mutants/$n.json'))['properties']))" 2>/dev/null || echo ${n%%-*})
